@@ -11,12 +11,14 @@
 #    the statement) the spec no longer describes the code -> exit 2.
 #  * "A process started" is observed twice: Session.Start / NewPTYSession returned success, and the stub executable
 #    itself appended a line to a marker file.
+#  * The authorisation decision is also run as request SEQUENCES on one live executor (a matching password first, then
+#    prefixes / suffixes / other wrong passwords, and every other order): it must not depend on earlier requests.
 #  * Sessions: the executor's counter never exceeds max_sessions (max_sessions = 0 means unlimited, as documented), it
 #    counts exactly the streams holding a slot, and the number of stub processes really alive when a session is
 #    acknowledged never exceeds the maximum (measured with slack for processes that are being killed).
 import vf, _shell as S
 
-D_DEVS = ["DevPrefixMatch", "DevBaseOfPath", "DevNoArgCheck", "DevEmptyPasswordOK", "DevCaseFold"]
+D_DEVS = ["DevPrefixMatch", "DevBaseOfPath", "DevNoArgCheck", "DevEmptyPasswordOK", "DevCaseFold", "DevArgValueOnly"]
 S_DEVS = ["DevCheckThenAct", "DevDoubleRelease", "DevOffByOne"]
 
 
@@ -91,6 +93,43 @@ def decision(ctx):
                 pty_cases=sum(1 for v in vecs if v["pty"]), nviol=nviol)
 
 
+def history(ctx):
+    """Request sequences on one live executor (Shell.tla part H): every sequence of <= 3 passwords of the classes
+    match / prefix / suffix / longer / wrong / absent; a process may start only for the matching password, whatever
+    was presented before."""
+    import os
+    ideal = S.h_run(ctx, maxreq=3)
+    if ideal.violated:
+        raise vf.Infra("ideal Shell spec (history) violates %s" % ideal.violated)
+    dv = S.h_run(ctx, dev=("DevAuthDependsOnHistory",), maxreq=3, emit=False, expect_violation=True)
+    if dv.violated != "HOnlyMatching":
+        raise vf.Infra("DevAuthDependsOnHistory not detected by HOnlyMatching")
+    paths, nnodes, nedges = vf.path_cover(ideal.edges, init_pred=lambda st: st == [])
+    inp = os.path.join(ctx.work, "shell_hist.json")
+    vf.write_json(inp, {"paths": paths})
+    r = ctx.gotest("shell", S.HFILES, "^TestZZVShellHistory$", env={"ZZV_IN": inp}, timeout=900)
+    summ = r.of("summary")
+    steps = r.of("step")
+    if not summ or len(steps) != sum(len(p["steps"]) for p in paths):
+        raise vf.Infra("history harness incomplete:\n" + r.out[-2000:])
+    ran = summ[0]["ran"]
+    bad = []
+    for x in steps:
+        really = bool(x["started"]) or ran.get(x["tag"], 0) > 0
+        if bool(x["started"]) != (ran.get(x["tag"], 0) > 0):
+            raise vf.Infra("history step %s: constructor result and stub marker disagree" % x["tag"])
+        if really and x["pw"] != "match":
+            ctx.finding("Shell:unauthorised-start:auth-history:%s" % x["pw"],
+                        "NewSession started a process for a request whose password (%s of the real one) does not match, "
+                        "after the request sequence %s on the same executor" % (x["pw"], x["seq"]), x)
+        elif really != x["want"]:
+            bad.append(x)
+    if bad and not ctx.violations:
+        raise vf.Infra("binding mismatch without a property violation (history): %s" % bad[0])
+    return dict(ideal=ideal, paths=len(paths), steps=len(steps), edges=nedges, caught=dv.violated,
+                sample=[s["a"] for s in paths[len(paths) // 2]["steps"]])
+
+
 def sessions(ctx):
     quick = ctx.quick()
     ideal = S.s_run(ctx, observers=() if quick else ("w1",), maxopens=3)
@@ -148,6 +187,7 @@ def sessions(ctx):
 
 def run(ctx):
     d = decision(ctx)
+    h = history(ctx)
     s = sessions(ctx)
     mid = len(d["vecs"]) // 2
     ctx.evidence("model_checking",
@@ -159,9 +199,10 @@ def run(ctx):
                                   len(set(vf.canon(v["c"]["args"]) for v in d["vecs"]))),
                               "session part: Go scheduler interleavings of concurrent streams are sampled (seeded), every "
                               "recorded execution is decided by TLC; process liveness measured through /proc with slack"],
-                 states=d["ideal"].distinct + s["ideal"].distinct,
-                 transitions=max(1, s["ideal"].generated - 1),
-                 traces_validated_against_impl=s["tot"]["traces"],
+                 states=d["ideal"].distinct + h["ideal"].distinct + s["ideal"].distinct,
+                 transitions=max(1, s["ideal"].generated - 1) + h["edges"],
+                 traces_validated_against_impl=s["tot"]["traces"] + h["paths"],
+                 history_paths=h["paths"], history_requests=h["steps"],
                  exhaustive=True,
                  evaluations=len(d["vecs"]) + d["pty_cases"],
                  distinct_nontrivial=len(d["classes"]),
@@ -173,6 +214,6 @@ def run(ctx):
                  pty_processes_started=d["pty_started"], unauthorised_starts=d["nviol"],
                  counter_states=s["ideal"].distinct, trace_events=s["tot"]["events"], stream_outcomes=s["tot"]["streams"],
                  live_over_limit_observations=s["tot"]["over"],
-                 deviations_caught=dict(d["caught"], **s["caught"]),
+                 deviations_caught=dict(d["caught"], DevAuthDependsOnHistory=h["caught"], **s["caught"]),
                  samples=[{"case": v["c"], "oracle": v["oracle"], "why": v["why"]} for v in d["vecs"][mid:mid + 3]]
-                 + [{"trace_events": s["sample"]}])
+                 + [{"history_sequence": h["sample"]}, {"trace_events": s["sample"]}])
